@@ -146,8 +146,20 @@ def scope_check(tokens):
       nxt = toks[i + 2] if i + 2 < n else ('', '')
       if in_from.get(b) and nxt != ('punct', '('):
         blocks[b]['aliases'].add(name); declared_anywhere.add(name)
+      elif in_from.get(b) and nxt == ('punct', '('):
+        # `UNNEST(...) as t(c1, c2)`: the table alias and its column aliases
+        blocks[b]['aliases'].add(name)
+        j = i + 3
+        while j < n and toks[j] != ('punct', ')'):
+          if toks[j][0] in ('word', 'qid'): blocks[b]['aliases'].add(toks[j][1].strip('`"'))
+          j += 1
     elif in_from.get(b) and k == 'word' and up not in KEYWORDS and i > 0:
       prev = toks[i - 1]
+      nxt = toks[i + 1] if i + 1 < n else ('end', '')
+      # a FROM item without alias: the table name itself is the alias
+      if (prev[0] == 'word' and prev[1].upper() in ('FROM', 'JOIN') or prev == ('punct', ',') or prev == ('punct', '.')) and \
+         (nxt[0] == 'end' or nxt == ('punct', ',') or nxt == ('punct', ')') or (nxt[0] == 'word' and nxt[1].upper() in KW_END_FROM | {'ON', 'JOIN', 'LEFT', 'CROSS', 'INNER'})):
+        blocks[b]['aliases'].add(t); declared_anywhere.add(t)
       # `schema.table alias` or `table alias` or `) alias`
       if prev[0] in ('word', 'qid') and (prev[1].upper() not in KEYWORDS) and (i < 2 or toks[i - 2] != ('punct', '.') or True):
         if i + 1 >= n or toks[i + 1] != ('punct', '.'):
